@@ -412,7 +412,7 @@ def rule6(P, rep, apis):
                         continue
                     tested = {x[1] for x in subexprs(c) if x[0] == 'm'} & cleared
                     rets = [s_ for s_ in b['succ'] if s_ is not None and any(e2['k'] == 'ret' for e2 in f.blocks[s_]['ev'])]
-                    if tested and rets and all(f.blk_dominates(bid, ev['b']) if hasattr(f, 'blk_dominates') else True for ev in evs):
+                    if tested and rets and all(f.block_dominates(bid, ev['b']) for ev in evs):
                         ok = True
                         how = 'a repeated call returns early: %s is cleared after the release and tested before it' % sorted(tested)[0].split('.')[1]
             rep.ob('C14.6-DANGLE', '%s/%s' % (f.name, g), ok, f.loc(evs[-1]),
